@@ -10,6 +10,7 @@ CONSTANTS
   ReadEdits = FALSE
   FirstWriteKeeps = TRUE
   HookEditsOld = FALSE
+  LendsOld = FALSE
   InitKinds = {"present"}
   NCases = 0
   MinOps = 1
